@@ -273,6 +273,10 @@ const A_DEFS: &[(&str, &str, Kind)] = &[
     ("pa", "def pa_{K}(x: T_{K}): pass\n", Kind::Check),
     ("r", "def r_{K}(x) -> {A}: return x\n", Kind::Check),
     ("a", "def a_{K}(v):\n    y: {A} = v\n", Kind::Check),
+    // `*args: T` / `**kwargs: T`: every extra positional / named argument has type T (what the
+    // static checker assumes: args: tuple[T, ...], kwargs: dict[str, T])
+    ("sa", "def sa_inner_{K}(*args: {A}): pass\ndef sa_{K}(v): sa_inner_{K}(v)\n", Kind::Check),
+    ("kw", "def kw_inner_{K}(**kwargs: {A}): pass\ndef kw_{K}(v): kw_inner_{K}(z = v)\n", Kind::Check),
 ];
 
 /// B's own functions, written over the loaded alias.
